@@ -19,28 +19,66 @@ class Dg:
         self.data, self.kind, self.fields, self.result, self.tag = data, kind, fields or {}, result, tag
 
 
-def build_reply(peer, req, op, value, **over):
+def near_ints(rng, v, prev=None):
+    """values an id check must tell apart from v: neighbours, the previous id, the same low 31 / 32 bits"""
+    c = [v + 1, v - 1, v ^ 1, v - 2 ** 31, v + 2 ** 31, v + 2 ** 32, v - 2 ** 32, -v, 0, v ^ (1 << 30), (v + 256) % 2 ** 31,
+         rng.getrandbits(31)]
+    if prev is not None:
+        c += [prev, prev]
+    c = [x for x in c if x != v and -2 ** 63 <= x < 2 ** 63]
+    return rng.choice(c)
+
+
+def near_bytes(rng, b):
+    """byte strings a comparison must tell apart from b: extensions, truncations, prefixes, one bit off, empty"""
+    b = bytes(b)
+    c = [b + b"\x00", b + b"x", b[:-1], b[1:], b"", b.swapcase(), b + b, b"\x00" + b]
+    if b:
+        c.append(b[:-1] + bytes([b[-1] ^ 1]))
+        c.append(bytes([b[0] ^ 0x80]) + b[1:])
+    c = [x for x in c if x != b]
+    return rng.choice(c)
+
+
+class View:
+    """what an observer knows about the session: its credentials and (v3) the engine id it has learned"""
+
+    def __init__(self, s):
+        p = s.peer
+        self.kind = p.kind
+        self.community = p.community.encode() if p.kind != "v3" else None
+        self.user = p.state.user if p.kind == "v3" else None
+        self.engine = (b"" if s.deferred else p.state.engine_id) if p.kind == "v3" else None
+        self.agent_engine = (s.final_state.engine_id if s.deferred else p.state.engine_id) if p.kind == "v3" else None
+
+
+def build_reply(peer, req, op, value, view=None, **over):
     """the genuine reply to `req` (or one with rewritten fields): returns Dg"""
     rid = over.get("request_id", req["request_id"])
     names = [tuple(v[0]) for v in req["varbinds"]]
     if op in ("getnext", "getbulk"):
         names = [names[0] + (1,)]
     vbs = [ber.varbind(n, ber.INT(value + k)) for k, n in enumerate(names)]
-    if op == "get":
-        result = value if len(names) == 1 else None
+    report = op == "refresh" or over.get("report", False)
+    if report:
+        result = ("ok", None) if op == "refresh" else ("exc", "SnmpAuthError")
+    elif op == "get":
+        result = ("ok", value) if len(names) == 1 else None
     elif op == "getmany":
-        result = {ber.dotted(n): value + k for k, n in enumerate(names)}
+        result = ("ok", {ber.dotted(n): value + k for k, n in enumerate(names)})
     elif op == "getnext":
-        result = (ber.dotted(names[0]), value)
+        result = ("ok", (ber.dotted(names[0]), value))
     else:
-        result = [(ber.dotted(names[0]), value)]
-    fields = {"request_id": rid}
+        result = ("ok", [(ber.dotted(names[0]), value)])
+    fields = {"request_id": rid, "report": report}
     if peer.kind == "v3":
         st = peer.state
         kw = {}
-        fields.update(user=over.get("user", st.user), engine_id=over.get("engine_id", st.engine_id),
+        fields.update(user=over.get("user", st.user),
+                      engine_id=over.get("engine_id", view.agent_engine if view else st.engine_id),
                       msg_id=over.get("msg_id", req["msg_id"]))
-        data = st.build(2, rid, fields["msg_id"], vbs, user=fields["user"], engine_id=fields["engine_id"])
+        data = st.build(8 if report else 2, rid, fields["msg_id"], vbs, user=fields["user"], engine_id=fields["engine_id"],
+                        reportable=over.get("reportable", False))
         ver = 3
     else:
         comm = over.get("community", peer.community)
@@ -51,25 +89,27 @@ def build_reply(peer, req, op, value, **over):
     return Dg(data, "message", fields, result)
 
 
-def matches(peer, cur, dg):
-    """the property's acceptance test, on the fields actually put on the wire"""
+def matches(view, cur, dg):
+    """the property's acceptance test, on the fields actually put on the wire (a Report is exempt from the
+    request-id comparison: src/snmp/pdu.rs:68-76)"""
     f = dg.fields
-    if f["request_id"] != cur["request_id"]:
+    if f["request_id"] != cur["request_id"] and not f["report"]:
         return False
-    if peer.kind == "v3":
-        return f["user"] == peer.state.user and f["engine_id"] == peer.state.engine_id and f["msg_id"] == cur["msg_id"]
-    return f["community"] == peer.community.encode()
+    if view.kind == "v3":
+        return (f["user"] == view.user and (view.engine == b"" or f["engine_id"] == view.engine)
+                and f["msg_id"] == cur["msg_id"])
+    return f["community"] == view.community
 
 
-def expected(peer, cur, queue):
-    """(outcome, consumed): first datagram that ends the wait"""
-    want_ver = {"v1": 0, "v2c": 1, "v3": 3}[peer.kind]
+def expected(view, cur, queue):
+    """(outcome, consumed, matching datagram): first datagram that ends the wait"""
+    want_ver = {"v1": 0, "v2c": 1, "v3": 3}[view.kind]
     for k, dg in enumerate(queue):
         if dg.kind == "garbage" or dg.fields.get("version") != want_ver:
-            return ("exc", "SnmpDecodeError"), k + 1
-        if matches(peer, cur, dg):
-            return ("ok", dg.result), k + 1
-    return ("exc", "BlockingIOError"), len(queue)
+            return ("exc", "SnmpDecodeError"), k + 1, None
+        if matches(view, cur, dg):
+            return dg.result, k + 1, dg
+    return ("exc", "BlockingIOError"), len(queue), None
 
 
 def other_version(rng, peer, req, value):
@@ -107,18 +147,24 @@ def run(chk, model_ok=True):
     distinct = set()
     for h in range(n_scripts):
         peer = rng.choice(peers)
-        s = sessions.Sess(env, peer, rng)
+        s = sessions.Sess(env, peer, rng, deferred=peer.kind == "v3" and rng.random() < 0.3)
+        view = View(s)
+        peer = s.peer
         all_sess.append(s)
         carry = []          # datagrams still queued at the client
         late = []           # replies the network still holds
         prev = []           # earlier requests of this script (decoded)
         n_req = rng.randrange(1, 5)
         for i in range(n_req):
-            op = rng.choice(["get", "get", "getmany", "getnext", "getbulk"])
+            op = rng.choice(["get", "get", "getmany", "getnext", "getbulk"] + (["refresh"] * 2 if peer.kind == "v3" else []))
             if peer.kind == "v1" and op == "getbulk":
                 op = "getnext"
+            if s.deferred and view.engine == b"" and rng.random() < 0.8:
+                op = "refresh"
             it = None
-            if op == "get":
+            if op == "refresh":
+                rec = s.send("refresh")
+            elif op == "get":
                 rec = s.send("get", sessions.rand_oid_text(rng))
             elif op == "getmany":
                 rec = s.send("getmany", list({sessions.rand_oid_text(rng) for _ in range(rng.randrange(1, 4))}))
@@ -131,13 +177,13 @@ def run(chk, model_ok=True):
             if rec["result"][0] != "ok" or not req or "request_id" not in req:
                 continue
             value = (h * 10 + i) * 1000 + 7
-            genuine = build_reply(peer, req, op, value)
+            genuine = build_reply(peer, req, op, value, view)
             new = []
             faults = [rng.choice(FAULTS) for _ in range(rng.choice([1, 1, 2, 3]))]
             for f in faults:
                 fault_hist[f] = fault_hist.get(f, 0) + 1
                 if f == "deliver":
-                    new.append(genuine)
+                    new.append(genuine if rng.random() < 0.7 else build_reply(peer, req, op, value, view, reportable=True))
                 elif f == "duplicate":
                     new += [genuine, genuine]
                 elif f == "delay":
@@ -147,30 +193,30 @@ def run(chk, model_ok=True):
                     late = []
                     new.append(genuine) if rng.random() < 0.5 else new.insert(0, genuine)
                 elif f == "reqid":
-                    rid = prev[-1]["request_id"] if prev and rng.random() < 0.5 else (req["request_id"] + rng.choice([1, -1, 256, 2 ** 30])) % 2 ** 31
-                    new.append(build_reply(peer, req, op, value + 100, request_id=rid))
+                    rid = near_ints(rng, req["request_id"], prev[-1]["request_id"] if prev else None)
+                    new.append(build_reply(peer, req, op, value + 100, view, request_id=rid, reportable=rng.random() < 0.4))
                 elif f == "cred" and peer.kind != "v3":
-                    new.append(build_reply(peer, req, op, value + 200, community=rng.choice(["", "Public", peer.community + "x", "private"])))
+                    new.append(build_reply(peer, req, op, value + 200, view, community=near_bytes(rng, peer.community.encode())))
                 elif f == "version":
                     new.append(other_version(rng, peer, req, value + 300))
                 elif f == "msgid" and peer.kind == "v3":
-                    mid = prev[-1]["msg_id"] if prev and rng.random() < 0.5 else (req["msg_id"] + 1) % 2 ** 31
-                    new.append(build_reply(peer, req, op, value + 400, msg_id=mid))
+                    mid = near_ints(rng, req["msg_id"], prev[-1]["msg_id"] if prev else None)
+                    new.append(build_reply(peer, req, op, value + 400, view, msg_id=mid, reportable=rng.random() < 0.4))
                 elif f == "user" and peer.kind == "v3":
-                    new.append(build_reply(peer, req, op, value + 500, user=rng.choice([b"", b"other", peer.state.user + b"x"])))
+                    new.append(build_reply(peer, req, op, value + 500, view, user=near_bytes(rng, view.user)))
                 elif f == "engine" and peer.kind == "v3":
-                    new.append(build_reply(peer, req, op, value + 600, engine_id=rng.choice([b"\x80\x00\x00\x00\x09", peer.state.engine_id[:-1]])))
+                    new.append(build_reply(peer, req, op, value + 600, view, engine_id=near_bytes(rng, view.agent_engine)))
                 elif f == "truncate":
                     cut = rng.randrange(0, len(genuine.data))
                     new.append(Dg(genuine.data[:cut], "garbage", tag="truncate"))
                 elif f == "foreign":
                     # a well-formed reply to somebody else's request
-                    new.append(build_reply(peer, dict(req, request_id=rng.getrandbits(31), msg_id=rng.getrandbits(31)), op, value + 700))
+                    new.append(build_reply(peer, dict(req, request_id=rng.getrandbits(31), msg_id=rng.getrandbits(31)), op, value + 700, view))
             if rng.random() < 0.3 and late and "delay" not in faults:
                 new = late + new
                 late = []
             queue = carry + new
-            want, used = expected(peer, req, queue)
+            want, used, hit = expected(view, req, queue)
             r = s.recv(op, [d.data for d in queue], it=it)
             n_recv += 1
             got = r["result"]
@@ -178,10 +224,12 @@ def run(chk, model_ok=True):
             outcome_hist[key] = outcome_hist.get(key, 0) + 1
             distinct.add((peer.label, op, tuple(faults), key))
             gotn = (got[0], got[1])
-            ok = gotn == (want[0], want[1]) if not (want[0] == "ok" and want[1] is None) else True
+            ok = gotn == (want[0], want[1]) if want is not None else True
+            if want is None:
+                want = ("ok", "?")
             if not ok:
                 fail(f"{s.label} request {i} ({op}) faults {faults}: the call returned {str(gotn)[:120]}, the datagram "
-                     f"sequence [{', '.join((d.tag or d.kind) + ('*' if d.kind == 'message' and matches(peer, req, d) else '') for d in queue)}] "
+                     f"sequence [{', '.join((d.tag or d.kind) + ('*' if d.kind == 'message' and matches(view, req, d) else '') for d in queue)}] "
                      f"determines {str(want)[:120]}", s.line())
                 break
             if r["consumed"] != used:
@@ -189,6 +237,8 @@ def run(chk, model_ok=True):
                 break
             carry = queue[used:]
             prev.append(req)
+            if hit is not None and view.kind == "v3" and view.engine == b"":
+                view.engine = hit.fields["engine_id"]
     nl, nd = sessions.model_compare(chk, all_sess, model_ok)
     chk.coverage.update({
         "evaluations": n_recv,
